@@ -203,7 +203,7 @@ PLAN = {
              "distinct text/row",
     ),
     "C17": dict(
-        streams=[("corpus", 0, 0), ("codec", 12000, 120000), ("std", 6000, 60000), ("streamprog", 4000, 60000), ("typed", 6000, 80000), ("float", 8000, 120000), ("e2x", 0, 0)],
+        streams=[("corpus", 0, 0), ("codec", 12000, 120000), ("std", 6000, 60000), ("streamprog", 4000, 60000), ("typed", 6000, 80000), ("typeddec", 6000, 80000), ("float", 8000, 120000), ("e2x", 0, 0)],
         theorems=[],
         facts=[F + "safeSet_eq", F + "htmlSafeSet_eq", F + "hex_eq", F + "useNumber_eq", F + "codecConditions_eq",
                F + "tokenStates_eq", F + "streamShape_eq"],
